@@ -538,8 +538,10 @@ class TypeManager(object):
                         myty = self.FunctionType(return_type, param_types)
                     else:
                         # Custom Type
-                        typedecl = self.Type(assert_not_none(type_.basename), type_.arity)
-                        new_args = tuple(typemap[a] for a in assert_not_none(type_.args))
+                        # (of the type being converted, which is not
+                        #  the outermost type when types are nested)
+                        typedecl = self.Type(assert_not_none(ty.basename), ty.arity)
+                        new_args = tuple(typemap[a] for a in assert_not_none(ty.args))
                         myty = self.get_type_instance(typedecl, *new_args)
                     typemap[ty] = myty
         return typemap[type_]
